@@ -12,7 +12,7 @@ from .. import AnalysisError, AnchorMissing
 from ..cfg import cfg_of
 from ..model import own_nodes
 from ..values import pattern, match, match_any, find, contains, show, subterms
-from .base import obligation, src, callee_name
+from .base import obligation, src, callee_name, if_branches, split_if
 from .C04 import pattern_term, returns, enclosing_loop, _inside
 
 S = 'elfi.methods.results:Sample'
@@ -196,13 +196,16 @@ def c16_e(ctx):
     sv = ctx.own_method(s, 'save')
     ex = ctx.ex(sv)
     kinds = set()
+    from .base import negate_term
     for n in own_nodes(sv.node):
         if isinstance(n, ast.If):
-            m = match(ex.term(n.test), pattern('_k == _c'))
-            if m is not None:
-                for side in (m['c'], m['k']):
-                    if side[0] == 'const' and isinstance(side[1], str):
-                        kinds.add(side[1])
+            t0, _b, _o = split_if(ex, n)
+            for cand in (t0, negate_term(t0)):
+                m = match(cand, pattern('_k == _c')) if cand is not None else None
+                if m is not None:
+                    for side in (m['c'], m['k']):
+                        if side[0] == 'const' and isinstance(side[1], str):
+                            kinds.add(side[1])
     ctx.check(kinds >= {'csv', 'json', 'pkl'}, sv, 'three kinds handled', sorted(kinds),
               'save handles {} (expected csv, json, pkl)'.format(sorted(kinds)), fn=sv,
               node=sv.node)
